@@ -302,7 +302,7 @@ func c14Server(r *fw.R, mode int, list []int, lines bool) {
 		r.Count("asymmetric_agreements_exercised", 1)
 	}
 	r.Key("server/mode=%d/win=%d/offer-params=c%v-s%v/response=c%v-s%v", mode, win, o.C, o.S, got.ClientNoCtx, got.ServerNoCtx)
-	c14Exchange(r, what+" response="+resp, c, peerEnd, RoleServer, got, true)
+	c14ExchangeMode(r, what+" response="+resp, c, peerEnd, RoleServer, got, true, mode)
 }
 
 func c14Client(r *fw.R, mode int, resp respElem, salt uint64) {
@@ -345,7 +345,7 @@ func c14Client(r *fw.R, mode int, resp respElem, salt uint64) {
 		if p.Deflate && p.ClientNoCtx != p.ServerNoCtx {
 			r.Count("asymmetric_agreements_exercised", 1)
 		}
-		c14Exchange(r, what, c, peerEnd, RoleClient, p, p.Deflate)
+		c14ExchangeMode(r, what, c, peerEnd, RoleClient, p, p.Deflate, mode)
 	default:
 		r.Count("no_verdict", 1)
 	}
@@ -356,7 +356,35 @@ func c14Client(r *fw.R, mode int, resp respElem, salt uint64) {
 
 // c14Exchange runs related messages in both directions between the library
 // connection and a raw peer that applies exactly params.
+// c14Other performs an unrelated handshake with the opposite takeover flags while a connection is in
+// use: negotiated parameters belong to one connection and must not move when another one is negotiated.
+func c14Other(libRole Role, p wire.Params, mode int) {
+	q := wire.Params{Deflate: true, ClientNoCtx: !p.ClientNoCtx, ServerNoCtx: !p.ServerNoCtx}
+	a, b := xport.Pair(xport.Plan{NoTap: true}, xport.Plan{NoTap: true})
+	defer a.Close()
+	defer b.Close()
+	m := websocket.CompressionMode(mode)
+	if libRole == RoleServer {
+		req := attach.UpgradeRequest()
+		req.Header.Set("Sec-WebSocket-Extensions", attach.ExtHeader(q))
+		if c, err := websocket.Accept(&attach.Recorder{Conn: a}, req, &websocket.AcceptOptions{CompressionMode: m}); err == nil {
+			c.CloseNow()
+		}
+		return
+	}
+	ctx, cancel := context.WithTimeout(context.Background(), 5*time.Second)
+	defer cancel()
+	go func() { time.Sleep(20 * time.Millisecond); b.CloseWrite() }()
+	if c, err := attach.Client(ctx, a, attach.ClientOpts{Params: q, Mode: &m}); err == nil {
+		c.CloseNow()
+	}
+}
+
 func c14Exchange(r *fw.R, what string, c *websocket.Conn, peerEnd *xport.End, libRole Role, p wire.Params, expectCompression bool) {
+	c14ExchangeMode(r, what, c, peerEnd, libRole, p, expectCompression, -1)
+}
+
+func c14ExchangeMode(r *fw.R, what string, c *websocket.Conn, peerEnd *xport.End, libRole Role, p wire.Params, expectCompression bool, mode int) {
 	peer := newRawPeer(peerEnd, libRole, p, 99)
 	peer.Start()
 	ctx, cancel := context.WithTimeout(context.Background(), 30*time.Second)
@@ -372,6 +400,10 @@ func c14Exchange(r *fw.R, what string, c *websocket.Conn, peerEnd *xport.End, li
 		if err := c.Write(ctx, websocket.MessageText, m); err != nil {
 			r.Violate("C14/write-failed", fmt.Sprintf("%s: Write %d failed: %v", what, i, err), "")
 			return
+		}
+		if i == 2 && mode > 0 && p.Deflate {
+			c14Other(libRole, p, mode)
+			r.Count("exchanges_with_another_handshake_in_between", 1)
 		}
 	}
 	if !peer.Wait(15*time.Second, func() bool { return len(peer.Conf.Messages) >= n }) {
@@ -415,6 +447,9 @@ func c14Exchange(r *fw.R, what string, c *websocket.Conn, peerEnd *xport.End, li
 			f.Rsv1 = true
 		}
 		peer.Send(f)
+		if i == 3 && mode > 0 && p.Deflate {
+			c14Other(libRole, p, mode)
+		}
 		_, got, err := c.Read(ctx)
 		if err != nil || !bytes.Equal(got, m) {
 			r.Violate("C14/library-cannot-decode-peer-output", fmt.Sprintf("%s: applying the negotiated parameters %s, message %d sent by the peer was read as err=%v, equal=%v", what, paramsKey(p), i, err, bytes.Equal(got, m)), "")
